@@ -149,8 +149,9 @@ PROPS = {
     "C20": dict(
         imports="Fstest.Assert", check="C20_check", ctype="C20_case",
         show="let '(mask, expected, actual, _) := c in tree_assert mask expected actual", n=dict(quick=100, thorough=100), chunk=300,
-        rule="the real fstest.FS + fstest.File suites run (one process per file system) on the unmodified mem.FS and os.FS and on a catalogue of 54 single-deviation wrappers around mem.FS "
-             "(operation is a no-op / applied twice / leaves or drops an entry / wrong permission bits, size, bytes / wrong error kind, path, type / EOF anomalies); "
+        rule="the real fstest.FS + fstest.File suites run (one process per file system) on the unmodified mem.FS and os.FS and on a catalogue of single-deviation wrappers around mem.FS "
+             "(84 single-behaviour ones: an operation is a no-op / applied twice / leaves or drops an entry / wrong permission bits, size, bytes / positional calls off by one or leaving a non-zero gap / wrong error kind, path, type / EOF anomalies; "
+             "and a matrix of sentinel-pair swaps, sampled in the quick tier); "
              "plus 200 generated (expected, actual tree, FileModeMask) triples whose real tryAssertEqualFS verdict is compared with the model's; distinct = distinct deviant or triple",
         level_text=LT, level_note=LN, assumptions=[],
     ),
